@@ -10,7 +10,12 @@ Third strengthening (harness c18_s3.go): transactions composed of Db calls that 
 ("D" scenarios on the schedule of Db/LockTable.v, the same forms inside the main workload, a stall watchdog),
 and values kept beyond the read transaction, read again after later commits and restores ("K" lines;
 Properties/C18.v kept_observations_persist); tables lock_table / view_table of Gen/GenAccess.v with
-Properties/C18Locks.v, C18Views.v."""
+Properties/C18Locks.v, C18Views.v.
+Sixth strengthening (harness c18_s6.go): writer transactions that fail part-way - after entity, index and link
+writes - through Db.Update, Db.Batch alone and Db.Batch from several goroutines at once (coalesced by bbolt): the
+model skips them (Db/Mvcc.v: a failed ECommit changes nothing; Properties/C18.v failed_transaction_leaves_no_trace),
+the version marker must not move, and besides the readers the writer itself reads what the transaction touched
+right afterwards ("Q w <ordinal of the W line> ..." lines) -> C18:failed-transaction-visible."""
 import glob
 import json
 import os
@@ -135,7 +140,7 @@ def main(argv):
         "translators/access (Go, go/packages): reading of the Go AST/types; its rules for write / synchronised / call graph (design/C18.md)",
         "the Go memory model and the race detector: a data race is not expressible in Gallina; the theorem is about the access table, the -race run supplies schedules",
         "extraction (ExtrOcamlBasic only) + extraction/c18_driver.ml + drv_common.ml",
-        "Go harness cmd/storageharness/c18.go, c18_s2.go, c18_s3.go, c17_stores.go and this comparison",
+        "Go harness cmd/storageharness/c18.go, c18_s2.go, c18_s3.go, c18_s6.go, c17_stores.go and this comparison",
         "Db/RwLock.v (the reload-lock system of C17: sync.RWMutex by its specification, writer preference) and the translator's rules for lock_table / view_table (translators/access/locks.go)",
     ]
     c.assumptions = [
@@ -220,6 +225,86 @@ def main(argv):
             committed.append(k)
             prev = v
 
+    # ---- transactions that did not commit (flag 0: rollback requested, or failed part-way) and left a trace ----
+    # a trace = the version marker differs from the model's right after it (while it agreed before it), or the
+    # writer's own read transaction after it (lines "Q w <ordinal> <version> <query>") differs from the serial answer
+    # Once the marker has moved on a transaction that did not commit, the numbering of the run and of the model are
+    # apart: what follows is a consequence, only the first such transaction is reported through this route.
+    visible = set()     # indexes of such W lines
+    moved_at = None     # index of the first W line (flag 0) after which the marker differs from the model's
+    prev_ok = True
+    def wver(x):
+        f = x.split()
+        return int(f[1]) if len(f) == 2 and f[1].isdigit() else None
+
+    for k in wlines:
+        # the marker is written as "the version before + 1": a transaction that did not commit and moved it is one ahead
+        if cases[k].split()[1] == "0" and prev_ok and wver(impl[k]) is not None and wver(impl[k]) == wver(modl[k]) + 1:
+            visible.add(k)
+            moved_at = k
+            break
+        prev_ok = impl[k] == modl[k]
+    # the writer's own read transactions: "Q wb .." before and "Q w .." after the transaction while the readers are
+    # held back - nothing but the transaction lies between the two (for a member of a coalesced batch: and the members
+    # that committed), so "the serial answer before, the same serial answer expected after, another answer after" is
+    # the transaction's doing (an answer that is wrong before as well, or a question whose serial answer the committed
+    # members change, is not attributed: reader-not-serial); "Q wu .." after it with the readers running
+    # (reader-not-serial when it differs)
+    before = {}
+    for k, x in enumerate(cases):
+        if x.startswith("Q wb "):
+            f = x.split()
+            before[(f[2], " ".join(f[4:]))] = (impl[k], modl[k])
+
+    def attributable(k):
+        """the look after an uncommitted transaction at line k differs and only the transaction can be the reason"""
+        f = cases[k].split()
+        b = before.get((f[2], " ".join(f[4:])))
+        return f[1] == "w" and impl[k] != modl[k] and b is not None and b[0] == b[1] and b[1] == modl[k]
+    for k, x in enumerate(cases):
+        if x.startswith("Q w ") and impl[k] != modl[k]:
+            f = x.split()
+            o = int(f[2])
+            if 0 <= o < len(wlines) and (moved_at is None or wlines[o] <= moved_at) and attributable(k):
+                visible.add(wlines[o])
+
+    def history(ver, upto=None):
+        """the committed writer transactions up to version ver, with the uncommitted ones that left a trace at
+        their places (none on a tree where the property holds); upto = index of a W line to stop after"""
+        last = committed[ver] if ver < len(committed) else len(cases)
+        if upto is not None:
+            last = upto + 1
+        keep = set(committed[:ver]) | set(j for j in visible if j < last)
+        if upto is not None:
+            keep.add(upto)
+        return [cases[j] for j in sorted(keep) if j < last]
+
+    def describe_failed(line):
+        f = line.split()
+        form = f[f.index("form") + 1] if "form" in f else "flat"
+        how = {"bu": "Db.Batch(nil, ..)", "cb": "Db.Batch(nil, ..) called from several goroutines at once (one bolt batch)"}.get(
+            form, "Db.Update(nil, ..)" + ("" if form == "flat" else " composed of joined calls (%s)" % form))
+        if "fail" in f:
+            kind, pos = f[f.index("fail") + 1], f[f.index("fail") + 2]
+            why = {"caller": "its function returned an error of its own before operation %s" % pos,
+                   "precommit": "a pre-commit action failed after all operations and the version marker were written",
+                   "unique": "operation %s violated the unique index" % pos,
+                   "notfound": "operation %s addressed an entity that does not exist" % pos,
+                   "veto": "operation %s was refused by an entity constraint after the entity was written" % pos}.get(kind, kind)
+        else:
+            why = "its function asked for a rollback after the last write"
+        return "a transaction of %s operations through %s failed (%s)" % (f[2], how, why)
+
+    def replay_failed(k):
+        """a failed transaction that is visible: history, the transaction, the writer's look"""
+        f = cases[k].split()
+        o = int(f[2])
+        wk = wlines[o]
+        lines = history(len([j for j in committed if j < wk]), upto=wk)
+        ord_in_replay = len(lines) - 1
+        # in the replay the look before the transaction comes before it, the look after it after it
+        return "\n".join(lines[:-1] + ["Q wb %d %s" % (ord_in_replay, " ".join(f[3:])), lines[-1], "Q w %d %s" % (ord_in_replay, " ".join(f[3:]))])
+
     def replay_for(k):
         """minimal replay of a reader disagreement: the committed writer transactions up to the
         version the reader had bound, then the query.  Listings and paged queries are wrapped in a
@@ -228,7 +313,7 @@ def main(argv):
         listing before it, an unpaged one after it"""
         f = cases[k].split()
         ver = int(f[3])
-        lines = [cases[j] for j in committed[:ver]]
+        lines = history(ver)
         kind = f[6] if f[4] == "at" and len(f) > 6 else f[4]   # "at <place> <query>": the family the query addresses
         if kind in ("list", "glist", "all", "page"):
             lines += ["Q 0 0 %d list 2 1" % ver, cases[k], "Q 0 0 %d all" % ver, "Q 0 0 %d glist -1 -1" % ver, "X " + X_EMPTY_PAGED]
@@ -258,6 +343,7 @@ def main(argv):
     disagreements = []
     versions_seen = set()
     kept = dict(checked=0, after_restore=0, changed=0)
+    probes = dict(checked=0, differ=0)
     dynamic = set()
     for k, (case, i, m) in enumerate(zip(cases, impl, modl)):
         kind = case[0]
@@ -265,7 +351,24 @@ def main(argv):
             f = case.split()
             versions_seen.add(f[3])
             distinct.add(" ".join(f[3:]))
-            if i.startswith("Q torn"):
+            if f[1] in ("w", "wb", "wu"):
+                probes["checked"] += 1
+                o = int(f[2])
+                wl = cases[wlines[o]] if 0 <= o < len(wlines) else "W ?"
+                if i != m:
+                    probes["differ"] += 1
+                if 0 <= o < len(wlines) and wlines[o] in visible and attributable(k):
+                    c.violation("C18:failed-transaction-visible",
+                                "%s, yet the next read transaction (version marker %s) sees what it wrote: query %s impl %s serial answer on the committed state %s"
+                                % (describe_failed(wl), f[3], " ".join(f[4:]), i[:200], m[:200]),
+                                dict(case=replay_failed(k), impl=i, model=m, query=case, transaction=wl[:600]))
+                elif i != m:
+                    c.violation("C18:reader-not-serial",
+                                "the writer's own read transaction %s a transaction that did not commit (bound to version %s) got an answer different from the "
+                                "serial execution on that version: query %s impl %s serial %s"
+                                % ("before" if f[1] == "wb" else "after", f[3], " ".join(f[4:]), i[:200], m[:200]),
+                                dict(case=replay_for(k), impl=i, model=m, query=case))
+            elif i.startswith("Q torn"):
                 c.violation("C18:torn-read", "a read transaction saw the version marker change: %s" % i, dict(case=replay_for(k), impl=i, query=case))
             elif i != m:
                 c.violation("C18:reader-not-serial",
@@ -275,6 +378,11 @@ def main(argv):
         elif kind == "W":
             if i != m:
                 disagreements.append((case, i, m))
+            if k == moved_at:
+                c.violation("C18:failed-transaction-visible",
+                            "%s, yet the version marker readers bind to moved: it reads %s, the committed history has %s versions"
+                            % (describe_failed(case), i, m.split()[-1]),
+                            dict(case="\n".join(history(int(m.split()[1]), upto=k)), impl=i, model=m, transaction=case[:600]))
         elif kind == "D":
             distinct.add(case)
             if i.startswith("D stuck"):
@@ -303,7 +411,9 @@ def main(argv):
                                ("the values kept by the K lines of this replay", "as given there", "the following", f[1] if len(f) > 1 else "0", what)),
                             dict(case=replay_kept(k), impl=i, model=m, kept=case))
         elif kind == "R":
-            if i != m:
+            if i != m and disagreements:
+                disagreements.append((case, i, m))   # the numbering has been apart since an earlier writer transaction
+            elif i != m:
                 c.violation("C18:restore-of-current-state-differs", "streaming the committed state out and restoring it: %s, expected %s" % (i[:200], m),
                             dict(case="\n".join([cases[j] for j in wlines if j < k][-40:] + [case]), impl=i, model=m))
         elif kind in "SP":
@@ -336,6 +446,7 @@ def main(argv):
     c.cov["samples"] = [dict(case=cases[k][:600], impl=impl[k][:600], model=modl[k][:600]) for k in (wlines[:1] + qs[:1] + qs[-1:])]
     c.cov["race_reports"] = len(races)
     c.cov["kept_values"] = kept
+    c.cov["looks_after_uncommitted_transactions"] = probes
     c.cov["joined_transaction_scenarios"] = len([x for x in cases if x.startswith("D ")])
     try:
         c.cov["input_distribution"] = json.load(open(os.path.join(c.work, "stats.json")))
